@@ -40,6 +40,18 @@ StateChecks(r) ==
     crash_budget |-> [a |-> sys.max_crashes > 0, c |-> NCrashed(s) <= sys.max_crashes],
     \* the network value is canonical: a flow that holds no message is not kept (it cannot influence anything, but it
     \* takes part in Eq/Hash of the real state: a state with such a flow is split from the one without)
+    \* the handler behind every delivery / timeout / random selection, called DIRECTLY with an already-owned state (the way
+    \* actor::spawn calls handlers; the model always passes a fresh borrowed one): same local state afterwards, same commands
+    owned_calls |-> [a |-> "owned" \in DOMAIN r /\ Len(r.owned) > 0 /\ ("wrap" \in DOMAIN sys => sys.wrap \notin {"script", "orl"}),
+                     c |-> ("owned" \in DOMAIN r /\ ("wrap" \in DOMAIN sys => sys.wrap \notin {"script", "orl"})) =>
+                            \A k \in DOMAIN r.owned :
+                               LET o == r.owned[k]  act == o.a  i == o.r.actor  cur == s.actors[i + 1]
+                                   h == CASE act.k = "deliver" -> OnMsg(sys, i, cur, act.src, act.msg)
+                                          [] act.k = "timeout" -> OnTimer(sys, i, cur, act.t)
+                                          [] act.k = "random"  -> OnRandom(sys, i, cur, act.val)
+                               IN /\ ~o.r.panicked
+                                  /\ o.r.after = (IF h.touch THEN h.next ELSE cur)
+                                  /\ o.r.cmds = h.cmds],
     \* ... and so are the pending random choices: a key without alternatives is not kept
     canonical_choices |-> [a |-> "dead_choices" \in DOMAIN r, c |-> "dead_choices" \in DOMAIN r => r.dead_choices = 0],
     canonical_net |-> [a |-> s.net.kind = "ordered", c |-> "empty_flows" \in DOMAIN r => r.empty_flows = 0],
